@@ -452,3 +452,55 @@ def path_link_direction_cases():
     if got != ["-", "+"]:
         return "mixed path a+,b+,c+ over L b - a - and L b + c +: directions %s, expected ['-', '+']" % got
     return True
+
+
+def edge_dollar_cases():
+    """E lines whose segments have known sequences (one or both): a `$` on a position that is not the sequence length of THAT segment is
+    reported by Gfa.validate (InconsistencyError), whichever of the two segments it is and whatever the other segment looks like"""
+    for seq1, seq2 in (("ACGTACGT", "ACGTACGT"), ("*", "ACGTACGT"), ("ACGTACGT", "*")):
+        for field, seg in (("end1", 1), ("end2", 2), ("beg1", 1), ("beg2", 2)):
+            for good in (True, False):
+                pos = {"beg1": "0", "end1": "2", "beg2": "0", "end2": "2"}
+                n = field[-1]
+                mark = "8$" if good else "5$"
+                if field.startswith("end"):
+                    pos["beg" + n], pos["end" + n] = "0", mark
+                else:
+                    pos["beg" + n], pos["end" + n] = mark, mark
+                known = (seq1 if seg == 1 else seq2) != "*"
+                lines = ["S\tA\t8\t%s" % seq1, "S\tB\t8\t%s" % seq2, "E\te\tA+\tB+\t%s\t%s\t%s\t%s\t*" % (pos["beg1"], pos["end1"], pos["beg2"], pos["end2"])]
+                try:
+                    gfapy.Gfa(lines, vlevel=1)
+                    ok = True
+                except gfapy.InconsistencyError:
+                    ok = False
+                except gfapy.Error as e:
+                    return "%r: %s" % (lines[2], type(e).__name__)
+                if known and ok != good:
+                    return "%r with sequences %s / %s: accepted=%s, expected %s" % (lines[2], seq1, seq2, ok, good)
+    return True
+
+
+def edge_setter_cases():
+    """E lines written from-first and 'backwards' (sid2 is the from segment), dovetails and containments: after e.from_segment = v the
+    getter returns v and to_segment is unchanged, and vice versa; same for the orientations"""
+    for text in ("E\t*\t1+\t2+\t90\t100$\t0\t10\t10M", "E\t*\t2+\t1+\t0\t10\t90\t100$\t10M", "E\t*\t1-\t5-\t90\t100$\t0\t10\t12M", "E\t*\t5-\t1-\t0\t10\t90\t100$\t12M",
+                 "E\t*\t4+\t1+\t0\t50$\t20\t70\t50M", "E\t*\t1+\t4+\t20\t70\t0\t50$\t50M"):
+        for which in ("from", "to"):
+            e = gfapy.Line(text, version="gfa2")
+            f0, t0, fo0, to0 = e.from_segment, e.to_segment, e.from_orient, e.to_orient
+            setattr(e, which + "_segment", "NEW")
+            if (e.from_segment, e.to_segment) != (("NEW", t0) if which == "from" else (f0, "NEW")):
+                return "%r: after %s_segment = 'NEW': from %s to %s (were %s, %s)" % (text, which, e.from_segment, e.to_segment, f0, t0)
+            if (e.from_orient, e.to_orient) != (fo0, to0):
+                return "%r: setting a segment changed an orientation" % text
+            e = gfapy.Line(text, version="gfa2")
+            new_o = "-" if getattr(e, which + "_orient") == "+" else "+"
+            other = getattr(e, ("to" if which == "from" else "from") + "_orient")
+            segs = (e.sid1.line, e.sid2.line)
+            setattr(e, which + "_orient", new_o)
+            if (e.sid1.line, e.sid2.line) != segs:
+                return "%r: setting an orientation changed a segment" % text
+            if sorted([e.sid1.orient, e.sid2.orient]) != sorted([new_o, other]):
+                return "%r: after %s_orient = %s the orientations are %s %s" % (text, which, new_o, e.sid1.orient, e.sid2.orient)
+    return True
